@@ -134,6 +134,9 @@ func cmdCheck(args []string) {
 
 	for _, un := range pd.Units {
 		key := modulePath + "/" + un.Fn
+		if strings.HasPrefix(un.Fn, "main.") {
+			key = modulePath + "." + strings.TrimPrefix(un.Fn, "main.")
+		}
 		fns := w.findFuncs(key)
 		if len(fns) == 0 {
 			// the function the property is anchored in no longer exists under that name
